@@ -8,7 +8,7 @@ CHECK = {'title': 'Stored fan data round-trips and is isolated per fan and per k
  'level': 'model_checking',
  'technique': 'explicit-state BFS over operation histories on the real persistence (bbolt file on tmpfs, file-snapshot successors, every new state '
               're-reached by replaying its history on a fresh file) against a two-map reference model; plus SIGKILL of a worker process at every '
-              'write-class syscall of a history (strace fault injection, database work pinned to one OS thread) followed by a read-back',
+              'write-class syscall of a history (strace fault injection, database work pinned to one OS thread) followed by a read-back; plus enumeration of start orders of three concurrent savers in virtual time',
  'rule': '(a) per configuration (subset of 3 fan ids x subset of 5 values x subset of 3 corrupt-byte variants, both kinds) breadth-first search over '
          '(database content, symbol) with symbols save/load/delete x kind x fan x value, corrupt(kind,fan,variant) written with bbolt directly, and '
          'reopen; state = which buckets exist + exact stored bytes per (kind, fan) read through a read-only bbolt handle; one transition = one real '
